@@ -334,16 +334,24 @@ class Summariser:
         self.model = model
         self.cache: dict[str, Summary] = {}
 
-    def summary(self, fn: FunctionInfo | str, full: bool = False) -> Summary:
+    def summary(self, fn: FunctionInfo | str, full: bool = False, bind: dict | None = None) -> Summary:
         """``full``: every parameter stays symbolic - for the EFFECT analyses (who mutates / captures / writes
         what), which hold for every call.  Default: new optional keywords read with their defaults (what the
         function COMPUTES for the calls the property speaks about)."""
         if isinstance(fn, str):
             fn = self.model.function(fn)
-        key = fn.qualname + ("#full" if full else "")
+        key = fn.qualname + ("#full" if full else "") + ("#" + repr(sorted(bind.items())) if bind else "")
         s = self.cache.get(key)
         if s is None:
-            if full and not new_defaulted_params(self.model, fn):
+            if bind:
+                # the function as ONE call site runs it: the literal keywords that call passes are bound
+                building = self.__dict__.setdefault("_building", [])
+                building.append(fn.qualname)
+                try:
+                    s = _Builder(self.model, fn, self, specialise=not full, bind=bind).run()
+                finally:
+                    building.pop()
+            elif full and not new_defaulted_params(self.model, fn):
                 s = self.summary(fn)
             else:
                 building = self.__dict__.setdefault("_building", [])
@@ -563,11 +571,12 @@ def _len_truth(test, pol):
 
 
 class _Builder:
-    def __init__(self, model: Model, fn: FunctionInfo, owner: "Summariser | None" = None, specialise: bool = True) -> None:
+    def __init__(self, model: Model, fn: FunctionInfo, owner: "Summariser | None" = None, specialise: bool = True, bind: dict | None = None) -> None:
         self.model = model
         self.fn = fn
         self.owner = owner
         self.specialise = specialise
+        self.bind = bind or {}
         self.low = Lowering(model, fn, fn.module)
         self.truncated = False
         self.inline_stack: list[str] = []
@@ -593,6 +602,9 @@ class _Builder:
                         env[name] = ("const", val)
                 outer = outer.parent
             for name, val in new_defaulted_params(self.model, self.fn).items():
+                env[name] = ("const", val)
+        for name, val in self.bind.items():
+            if name in env:
                 env[name] = ("const", val)
         start = Path([], env, None)
         body = list(self.fn.node.body)
